@@ -375,9 +375,12 @@ func EvalOne(ctx context.Context, s *eval.State, what string, out io.Writer, opt
 	formatted string,
 ) {
 	if !options.PanicOk {
+		savedOut := s.Out
 		defer func() {
 			if r := recover(); r != nil {
 				panicked = true
+				// a panic inside a function call leaves the call's private output buffer installed.
+				s.Out = savedOut
 				log.Critf("Caught panic: %v", r)
 				if log.LogDebug() {
 					log.Debugf("Dumping stack trace")
